@@ -164,6 +164,15 @@ def run_case(runner, space, case):
                     viol.append(("c13-cli-does-not-return", "lha %s on an archive cut at %d via %s did not return" % (mode, case["cut"], how)))
                 elif not r.status.startswith("exit:") or r.status in ("exit:86", "exit:87"):
                     viol.append(("c08-cli-abnormal", "%s %s: %s %r" % (mode, how, r.status, r.stderr[:300])))
+        if space == "c13" and (case["cut"] % 5 == 0 or case["cut"] == len(seed)):
+            # standard output that cannot be written to (full device) or is closed: every command still returns, without a signal
+            for kind in ("full", "closed"):
+                for mode in ("l", "vv", "t", "p", "xf", "xq2"):
+                    r = runner.run(arc, [mode, "../archive.lzh"], want_trees=False, timeout=30, stdout_kind=kind)
+                    if r.status == "timeout":
+                        viol.append(("c13-cli-does-not-return", "lha %s with standard output %s did not return (archive cut at %d)" % (mode, kind, case["cut"])))
+                    elif not r.status.startswith("exit:") or r.status in ("exit:86", "exit:87"):
+                        viol.append(("c08-cli-abnormal", "%s with standard output %s: %s %r" % (mode, kind, r.status, r.stderr[:300])))
         for mode in ("t", "lq2", "vvq2"):
             for how in ("stdin-file", "stdin-pipe"):
                 if outs[(how, mode)] != outs[("file", mode)]:
